@@ -38,7 +38,9 @@ DEMUX_CFG = {
         ("L3/sim", dict(D3, MaxLen=12, Probe=0, PktProbe=0, sim=(250, 12), Extras='{"full", "ext"}')),
     ],
     "thorough": [
-        ("L3/len5", dict(D3, MaxLen=5, Probe=4, PktProbe=3)),
+        # probes (incl. the binding table: an id-less probe of each SSRC shows whom it is bound to) through every
+        # forgetting transition of every history of 5 actions, and after every taken packet up to history 4
+        ("L3/len5", dict(D3, MaxLen=5, Probe=5, PktProbe=4)),
         ("L2/len6", dict(D2, MaxLen=6, Probe=5, PktProbe=4)),
         ("L2/full", dict(D2, MaxLen=40, Probe=0, PktProbe=0)),
         ("L3/ext/len4", dict(D3, Rids="{1, 2}", Ext="ExtAll", MaxLen=4, Probe=3, PktProbe=2)),
